@@ -430,7 +430,7 @@ def replay_sampled(fl, FA, cls=None, what="membership", seed=0, budget=40, vals=
             fin = [v for k, v in kw.items() if k != "height" and np.isfinite(v)]
             if what == "membership":
                 pts = set(fin) | {np.nextafter(v, np.inf) for v in fin} | {np.nextafter(v, -np.inf) for v in fin}
-                pts |= {(a + b) / 2 for a in fin for b in fin} | {float("inf"), float("-inf"), float("nan"), round(rng.uniform(-4, 4), 3), 0.3}
+                pts |= {(a + b) / 2 for a in fin for b in fin} | {2 * b - a for a in fin for b in fin} | {float("inf"), float("-inf"), float("nan"), round(rng.uniform(-4, 4), 3), 0.3}
                 for x in sorted(pts, key=lambda v: (v != v, v)):
                     # closed form in doubles: conditioned like a square root next to a vertical tangent (Arc, SemiEllipse: ~1e-8 one ulp away from an end
                     # point), hence the absolute tolerance 1e-6; where the closed form itself is not evaluable (root of a rounding-negative number) no oracle
@@ -443,6 +443,15 @@ def replay_sampled(fl, FA, cls=None, what="membership", seed=0, budget=40, vals=
                     if not FA.same(exp, obs, rel=1e-9, abs_=1e-6) or (t.height and bool(np.isnan(obs)) != bool(np.isnan(x))):
                         return {"failed": True, "cases": cases, "expected": float(exp), "observed": float(obs),
                                 "call": f"{c}({', '.join(f'{k}={v!r}' for k, v in kwf.items())}).membership({x!r})"}
+                    # the same point as a plain Python float (parameters are Python floats here): same value, no exception
+                    try:
+                        obs2 = np.float64(term_.membership(float(x)))
+                    except Exception as ex:  # noqa
+                        return {"failed": True, "cases": cases, "expected": float(obs), "observed": f"{type(ex).__name__}: {ex}",
+                                "call": f"{c}({', '.join(f'{k}={v!r}' for k, v in kwf.items())}).membership({float(x)!r}) with a Python float argument"}
+                    if not FA.same(obs, obs2):
+                        return {"failed": True, "cases": cases, "expected": float(obs), "observed": float(obs2),
+                                "call": f"{c}({', '.join(f'{k}={v!r}' for k, v in kwf.items())}).membership({float(x)!r}) with a Python float argument against numpy.float64"}
                 x, x2 = rng.choice(sorted(p for p in pts if p == p)), round(rng.uniform(-4, 4), 3)
                 r = replay(fl, FA, "elementwise", c, dict(kw, x=x, x2=x2))
                 cases += 1
